@@ -737,6 +737,21 @@ def prims(sc, pps, op, workdir, other, other_case=None):
     elif name == "deepcopy":
         out.append(("DeepCopy", lambda: (copy.deepcopy(sc), copy.deepcopy(pps), copy.deepcopy(net))))
         out.append(("ShallowCopy", lambda: (copy.copy(sc), copy.copy(pps))))
+        # the library's own copying routes: a network cut out of this one only reads it
+
+        def cuts():
+            from commonroad.scenario.lanelet import LaneletNetwork as _LN, LaneletType as _LT
+            from commonroad.geometry.shape import Rectangle as _R
+            lls = net.lanelets
+            _LN.create_from_lanelet_network(net)
+            _LN.create_from_lanelet_list(list(lls))
+            if lls:
+                la = lls[len(lls) // 2]
+                types = set(la.lanelet_type) or {_LT.URBAN}
+                _LN.create_from_lanelet_network(net, exclude_lanelet_types=types)
+                c = la.center_vertices[len(la.center_vertices) // 2][:2]
+                _LN.create_from_lanelet_network(net, shape_input=_R(6.0, 4.0, np.array([float(c[0]), float(c[1])])))
+        out.append(("DeepCopy", cuts))
     elif name == "pickle":
         out.append(("Pickle", lambda: (pickle.loads(pickle.dumps(sc)), pickle.loads(pickle.dumps(pps)))))
     elif name == "draw":
